@@ -207,6 +207,14 @@ def run_history(rec, case):
                 if s.mode == 'websocket':
                     R.ws_send(s, '1')
                 else:
+                    if s.autopoll and rng.random() < 0.5:
+                        # the client closes between two polls: it stops
+                        # polling, reads one more message, then sends CLOSE
+                        # (nothing is pending that could reap the socket)
+                        s.autopoll = False
+                        R.send(s, 'text')
+                        sim.quiesce()
+                        rec.count('close_between_polls')
                     R.post_raw(s, '1')
                 kill(s, 'client disconnect')
                 if rng.random() < 0.5:
